@@ -18,7 +18,9 @@ ZConfig log message formatting support.
 
 import inspect
 import logging
+import os
 import string
+import threading
 
 
 class PercentStyle:
@@ -100,9 +102,9 @@ _log_format_variables = {
     'asctime': 'atime',
     'msecs': 1.1,
     'relativeCreated': 1.1,
-    'thread': 1,
+    'thread': threading.get_ident(),
     'message': 'amessage',
-    'process': 1,
+    'process': os.getpid(),
     'funcName': 'fname',
 }
 
@@ -201,6 +203,9 @@ class FormatterFactory:
             # since those aren't allowed when formatting with a mapping.
             #
             raise ValueError('%s formats cannot use positional placeholders')
+        except OverflowError as e:
+            # e.g. %(thread)c: a thread identifier is not a code point
+            raise ValueError(str(e))
         # Build the formatter once now: the factory may refuse a format
         # the trial formatting lets through (logging.Formatter validates
         # that the format refers to at least one field), and that must
